@@ -214,9 +214,13 @@ def growth_hook(container):
     def hook(h, ops, c_lines):
         if not ops:
             return []
-        m = re.search(r"\bexp=([0-9.]+)", ops[0])
-        f = float(m.group(1)) if m else 2.0
-        if f <= 1.0 or container in ("deque", "queue", "hashtable", "hashset"):
+        # one history may create several objects with different expansion factors (`new … exp=`, `mk_new to=k … exp=`,
+        # derived objects inherit theirs): the bound is computed with the SMALLEST factor > 1 that occurs anywhere in the
+        # history (and the default 2), which is sound for every object of it
+        fs = [float(x) for op in ops for x in re.findall(r"\bexp=([0-9.]+)", op)]
+        fs = [x for x in fs if x > 1.0] + [2.0]
+        f = min(fs)
+        if container in ("deque", "queue", "hashtable", "hashset"):
             f = 2.0
         total = {}      # successful appends so far per object (upper bound of its size)
         run_n = {}      # appends in the current uninterrupted run of appends per object
@@ -407,8 +411,13 @@ def run_container(P, pid, cspec, tier, seed):
         if hasattr(g, "fault_seeds"):
             base = g.fault_seeds(tier) + base
         fv = []
+        cap = cspec.get("fault_cap_quick", 4000) if tier == "quick" else cspec.get("fault_cap_thorough", 20000)
         for h in base:
             fv.extend(fault_variants(runner, h, 40 if tier == "quick" else 300, rng))
+            if len(fv) > 2 * cap:       # bound memory: the enumeration of a thorough run once needed > 60 GB
+                fv = rng.sample(fv, cap)
+        if len(fv) > cap:
+            fv = rng.sample(fv, cap)
         late.append(("fault-enumeration", fv))
     batches = batches[:1] + late + batches[1:] if batches and batches[0][0] == "corpus" else late + batches
     if not rnd:
@@ -416,13 +425,24 @@ def run_container(P, pid, cspec, tier, seed):
     t_start = time.time()
     budget = cspec.get("budget_quick", 120) if tier == "quick" else cspec.get("budget_thorough", 900)
     truncated = []
+    def chunks(hs, max_hist=300, max_ops=8000):
+        """consecutive slices holding at most max_hist histories and (unless a single history is longer) max_ops
+        operations: the long histories of the scale stream are processed one at a time, which bounds the memory held
+        for C and Lean output (a thorough run once grew past 60 GB)"""
+        lo, n = 0, 0
+        for i, h in enumerate(hs):
+            if i > lo and (i - lo >= max_hist or n + len(h) > max_ops):
+                yield lo, hs[lo:i]
+                lo, n = i, 0
+            n += len(h)
+        if lo < len(hs):
+            yield lo, hs[lo:]
+
     for bname, hs in batches:
-        CH = 300
-        for lo in range(0, len(hs), CH):
+        for lo, chunk in chunks(hs):
             if time.time() - t_start > budget:
                 truncated.append((bname, lo, len(hs)))
                 break
-            chunk = hs[lo:lo + CH]
             try:
                 res = runner.run(chunk)
             except (RuntimeError, Exception) as e:
